@@ -11,6 +11,7 @@ import DvcData.Model.IndexDiff
 import DvcData.Model.IndexCheckout
 import DvcData.Model.State
 import DvcData.Model.Store
+import DvcData.Model.Checkout
 open Lean DvcData
 
 /-! Line-protocol driver: one JSON request per line on stdin, one JSON answer per line on stdout.
@@ -511,6 +512,47 @@ def opStoreHistory (j : Lean.Json) : Except String Lean.Json := do
     outs := outs.push out
   pure (Lean.Json.mkObj [("results", Lean.Json.arr outs)])
 
+/-! ### object checkout -/
+
+def linkOf (s : String) : Except String Checkout.LinkKind :=
+  match s with
+  | "copy" => pure .copy | "hardlink" => pure .hardlink | "symlink" => pure .symlink
+  | "reflink" => pure .copy
+  | _ => throw s!"bad link {s}"
+
+def linkTo : Checkout.LinkKind → String
+  | .copy => "copy" | .hardlink => "hardlink" | .symlink => "symlink"
+
+def opObjCheckout (j : Lean.Json) : Except String Lean.Json := do
+  let ws ← (← arr j "ws").toList.mapM fun e => do
+    let k ← keyOf (← e.getObjVal? "key")
+    let o ← str e "oid"
+    let l ← linkOf (← str e "link")
+    pure (k, ({ oid := o, link := l, toCache := boolOf e "to_cache" } : Checkout.WFile))
+  let target ← (← arr j "target").toList.mapM fun e => do
+    let k ← keyOf (← e.getObjVal? "key")
+    let o ← str e "oid"
+    pure (k, o)
+  let cache ← strList j "cache"
+  let types ← (← strList j "types").mapM linkOf
+  let prompt := match j.getObjVal? "prompt" with | .ok (.bool b) => some b | _ => none
+  let cfg : Checkout.Cfg := { force := boolOf j "force", relink := boolOf j "relink", prompt, types }
+  let order := (ws.map (·.1)) ++ (target.map (·.1))
+  let r := Checkout.checkout cfg cache ws target order order
+  let out := match r.outcome with
+    | .ok b => Lean.Json.mkObj [("ok", .bool b)]
+    | .promptError k => Lean.Json.mkObj [("err", "PromptError"), ("path", keyTo k)]
+    | .checkoutError ks => Lean.Json.mkObj [("err", "CheckoutError"), ("paths", Lean.Json.arr (ks.map keyTo).toArray)]
+  pure (Lean.Json.mkObj [("outcome", out), ("ws", Lean.Json.arr (r.ws.map fun e =>
+    Lean.Json.mkObj [("key", keyTo e.1), ("oid", e.2.oid), ("link", linkTo e.2.link)]).toArray)])
+
+def opNeedsRelink (j : Lean.Json) : Except String Lean.Json := do
+  let rows ← (← arr j "rows").toList.mapM fun r => do
+    let types ← (← strList r "types").mapM linkOf
+    let l ← linkOf (← str r "link")
+    pure (Checkout.needsRelink types { oid := "x", link := l, toCache := boolOf r "to_cache" } (boolOf r "cache_known"))
+  pure (Lean.Json.mkObj [("r", bits rows)])
+
 def kindOf (s : String) : Except String Merge.Kind :=
   match s with
   | "add" => pure .add | "remove" => pure .remove | "change" => pure .change
@@ -549,6 +591,8 @@ def dispatch (j : Json) : Except String Json := do
   | "idx_checkout" => opIdxCheckout j
   | "state_history" => opStateHistory j
   | "store_history" => opStoreHistory j
+  | "obj_checkout" => opObjCheckout j
+  | "needs_relink" => opNeedsRelink j
   | "ping" => pure (Json.mkObj [("pong", true)])
   | op => throw s!"unknown op {op}"
 
